@@ -15,6 +15,7 @@ const (
 	SBV
 	SFP
 	SReal
+	SInt
 )
 
 type Sort struct {
@@ -24,6 +25,7 @@ type Sort struct {
 
 var BoolSort = Sort{SBool, 0}
 var RealSort = Sort{SReal, 0}
+var IntSort = Sort{SInt, 0}
 
 func BV(w int) Sort { return Sort{SBV, w} }
 func FP(w int) Sort { return Sort{SFP, w} }
@@ -41,6 +43,8 @@ func (s Sort) SMT() string {
 		return "(_ FloatingPoint 11 53)"
 	case SReal:
 		return "Real"
+	case SInt:
+		return "Int"
 	}
 	panic("bad sort")
 }
@@ -104,6 +108,7 @@ const (
 	OBvToReal  // unsigned bv -> real
 	OBvSToReal // signed bv -> real
 	OApp       // uninterpreted function application (name)
+	OIntToReal // Int -> Real
 )
 
 var opNames = map[Op]string{
@@ -114,7 +119,7 @@ var opNames = map[Op]string{
 	OBvUlt: "bvult", OBvUle: "bvule", OBvSlt: "bvslt", OBvSle: "bvsle", OConcat: "concat",
 	OFpAdd: "fp.add RNE", OFpSub: "fp.sub RNE", OFpMul: "fp.mul RNE", OFpDiv: "fp.div RNE", OFpNeg: "fp.neg",
 	OFpLt: "fp.lt", OFpLe: "fp.leq", OFpEq: "fp.eq", OFpIsNaN: "fp.isNaN", OFpIsInf: "fp.isInfinite",
-	OFpToReal: "fp.to_real",
+	OFpToReal: "fp.to_real", OIntToReal: "to_real",
 	ORAdd:     "+", ORSub: "-", ORMul: "*", ORDiv: "/", ORNeg: "-", ORLt: "<", ORLe: "<=",
 }
 
@@ -1168,3 +1173,5 @@ func Vars(ts ...*Term) []*Term {
 // eqSelf returns a trivially true constraint mentioning t (so that the
 // solver's model assigns t's variables).
 func (t *Term) eqSelf(b *Builder) *Term { return b.Bool(true) }
+
+func (b *Builder) IntToReal(x *Term) *Term { return b.mk(OIntToReal, RealSort, 0, 0, "", x) }
